@@ -74,8 +74,9 @@ def specSolString (toks : List String) : String :=
     | some slot, some st, some km =>
       let stf := fun s => (alookup s st).getD 0
       -- lengths ≥ 2^64 cannot be loaded and are rejected by the code ("storage too large"): guard of c09_string_exact
+      if ((stf slot) - 1) / 2 ≥ U64 ∧ (stf slot) % 2 = 1 then "reject" else
       match solString stf (fun b => (alookup b km).getD 0) slot with
-      | some b => if ((stf slot) - 1) / 2 ≥ U64 ∧ (stf slot) % 2 = 1 then "reject" else hexBytes b
+      | some b => hexBytes b
       | none => "reject"
     | _, _, _ => "bad-op"
   | _ => "bad-op"
